@@ -1,6 +1,10 @@
 //! Utilities for writing spectra.
 
-use std::{fs, io, path::Path};
+use std::{
+    fs,
+    io::{self, Write},
+    path::Path,
+};
 
 use crate::{spectrum::State, Spectrum};
 
@@ -44,7 +48,12 @@ impl Builder {
 
     /// Write spectrum to stdout.
     pub fn write_to_stdout<S: State>(self, spectrum: &Spectrum<S>) -> io::Result<()> {
-        self.write(&mut io::stdout().lock(), spectrum)
+        let mut stdout = io::stdout().lock();
+        self.write(&mut stdout, spectrum)?;
+
+        // Stdout is line-buffered and npy output does not end in a newline: without an explicit
+        // flush the tail is only written at process exit, where a failing write goes unnoticed
+        stdout.flush()
     }
 
     /// Write spectrum to path.
